@@ -58,6 +58,10 @@ def run(tier, seed, t0):
             jobs.append(Job("keybias-%d-%d" % (lam, i), "drv_c02", "optim", "spqlios-fma",
                             ["--mode", "keybias", "--seed", seed, "--lambda", lam, "--count", 64 if thorough else 24, "--shard", i], timeout=3600))
 
+    for i, j in enumerate(jobs):      # process history: every other native job first generates and uses a custom parameter set
+        if j.tool is None and j.driver == "drv_c02" and i % 2 == 0:
+            j.args = j.args + ["--prelude", "1"]
+
     def post(results, agg):
         viols = []
         pooled = {}
